@@ -425,6 +425,13 @@ def run(prog, rep, tier):
                 if any(f[-1] == 'encrypt_parameters' for f in o.fields):
                     some_edge = r[3] if r[1].cmethod == 'is_none' else r[2]
                     guard = (bl.idx, some_edge)
+        # `match self.encrypt_parameters { Some(_) => Ok(()), None => Err(..) }`
+        for sbb, si in arm_of_enum_switch(prog, lp):
+            if (si['adt'] or '').endswith('Option') and si['arms'].get('Some') is not None:
+                pl = si['place']
+                fl = place_fields(pl)[-1:] == ['encrypt_parameters'] or any(f[-1] == 'encrypt_parameters' for f in origins(lp, [pl[0]], through_calls=False).fields)
+                if fl and enum_arm_target(si, 'None') != si['arms']['Some']:
+                    guard = guard or (sbb, si['arms']['Some'])
         ok = bool(okret) and guard is not None and all(lp.edge_dominates(guard, bb) for bb, _ in okret)
         rep.ob('R07.5', ok, 'R07.5|%s|ok-requires-key' % lp.nkey, 'Ok(()) only on the edge where encrypt_parameters is Some' if ok else 'load_persistent can return Ok without a recovered key', lp.loc())
         # loop over all private keys; early exit only after success
